@@ -176,6 +176,10 @@ func generated(a lib.Args) []RoundSpec {
 			// a shared Session handle whose first condition is a single Or (Where.Build swaps in place)
 			d = withOrBase(d)
 		}
+		if i%2 == 1 {
+			// session options, condition forms, Row() on a share of the operations
+			sprinkle(r.Fork(), &d)
+		}
 		out = append(out, RoundSpec{Kind: "db", DB: &d})
 	}
 	// first use of a statement text from many goroutines at once, with the handle-wide statement cache
@@ -228,6 +232,14 @@ func generated(a lib.Args) []RoundSpec {
 	}
 	for i := 0; i < nFail; i++ {
 		d := genFailingPrepare(r.Fork(), []int{16, 12, 16, 8}[i%4], i%4 == 3, thorough)
+		out = append(out, RoundSpec{Kind: "db", DB: &d})
+	}
+	nBad := 2
+	if thorough {
+		nBad = 20
+	}
+	for i := 0; i < nBad; i++ {
+		d := genBadDB(r.Fork(), []int{4, 8}[i%2])
 		out = append(out, RoundSpec{Kind: "db", DB: &d})
 	}
 	for i := 0; i < nStag; i++ {
